@@ -195,6 +195,112 @@ class _KwArgs(ast.NodeTransformer):
         return n
 
 
+def _pure(e) -> bool:
+    return not any(isinstance(x, (ast.Call, ast.Await, ast.Yield, ast.YieldFrom, ast.NamedExpr, ast.Lambda,
+                                  ast.ListComp, ast.SetComp, ast.DictComp, ast.GeneratorExp, ast.Starred))
+                   for x in ast.walk(e))
+
+
+def _blocks(fn):
+    """every statement list of fn (not of nested functions/classes)"""
+    out, stack = [], [fn]
+    while stack:
+        n = stack.pop()
+        for f in ('body', 'orelse', 'finalbody'):
+            b = getattr(n, f, None)
+            if isinstance(b, list) and b and isinstance(b[0], ast.stmt):
+                out.append((n, f, b))
+                for st in b:
+                    if not isinstance(st, (ast.FunctionDef, ast.AsyncFunctionDef, ast.ClassDef)):
+                        stack.append(st)
+        for h in getattr(n, 'handlers', []) or []:
+            stack.append(h)
+        for c in getattr(n, 'cases', []) or []:
+            stack.append(c)
+    return out
+
+
+def extract_locals(tree: ast.Module) -> ast.Module:
+    """return E -> _rv = E; return _rv;  if T: (not an elif) -> _cN = T; if _cN:;
+    x = A op (B) with call-free operands -> _tN = B; x = A op _tN"""
+    for fn in [n for n in ast.walk(tree) if isinstance(n, (ast.FunctionDef, ast.AsyncFunctionDef))]:
+        if any(isinstance(x, (ast.Yield, ast.YieldFrom)) for x in ast.walk(fn)):
+            continue
+        k = 0
+        for owner, field, body in _blocks(fn):
+            out = []
+            for st in body:
+                if isinstance(st, ast.Return) and st.value is not None and not isinstance(st.value, (ast.Name, ast.Constant)):
+                    k += 1
+                    nm = f'_rv{k}'
+                    out.append(ast.copy_location(ast.Assign(targets=[ast.Name(id=nm, ctx=ast.Store())], value=st.value), st))
+                    st.value = ast.Name(id=nm, ctx=ast.Load())
+                elif isinstance(st, ast.If) and not isinstance(st.test, (ast.Name, ast.Constant)) \
+                        and not (field == 'orelse' and isinstance(owner, ast.If) and len(body) == 1) \
+                        and not any(isinstance(x, ast.NamedExpr) for x in ast.walk(st.test)):
+                    k += 1
+                    nm = f'_c{k}'
+                    out.append(ast.copy_location(ast.Assign(targets=[ast.Name(id=nm, ctx=ast.Store())], value=st.test), st))
+                    st.test = ast.Name(id=nm, ctx=ast.Load())
+                elif isinstance(st, ast.Assign) and isinstance(st.value, ast.BinOp) and _pure(st.value) \
+                        and isinstance(st.value.right, ast.BinOp):
+                    k += 1
+                    nm = f'_t{k}'
+                    out.append(ast.copy_location(ast.Assign(targets=[ast.Name(id=nm, ctx=ast.Store())], value=st.value.right), st))
+                    st.value.right = ast.Name(id=nm, ctx=ast.Load())
+                out.append(st)
+            setattr(owner, field, out)
+    return tree
+
+
+class _Subst(ast.NodeTransformer):
+    def __init__(self, name, value):
+        self.name, self.value = name, value
+
+    def visit_Name(self, n):
+        if n.id == self.name and isinstance(n.ctx, ast.Load):
+            return self.value
+        return n
+
+
+def inline_locals(tree: ast.Module) -> ast.Module:
+    """v = E; S(v)  ->  S(E)  when v has one definition and one use in the whole function, the use is in the
+    statement right after the definition (same block) and E is call-free"""
+    for fn in [n for n in ast.walk(tree) if isinstance(n, (ast.FunctionDef, ast.AsyncFunctionDef))]:
+        names = _locals_of(fn)
+        loads, stores = {}, {}
+        for x in ast.walk(fn):
+            if isinstance(x, ast.Name):
+                d = loads if isinstance(x.ctx, ast.Load) else stores
+                d[x.id] = d.get(x.id, 0) + 1
+        nested = set()
+        for sub in ast.walk(fn):
+            if sub is not fn and isinstance(sub, (ast.FunctionDef, ast.AsyncFunctionDef, ast.Lambda, ast.ListComp, ast.SetComp,
+                                                  ast.DictComp, ast.GeneratorExp)):
+                nested |= {x.id for x in ast.walk(sub) if isinstance(x, ast.Name)}
+        for owner, field, body in _blocks(fn):
+            i = 0
+            while i + 1 < len(body):
+                st, nx = body[i], body[i + 1]
+                if isinstance(st, ast.Assign) and len(st.targets) == 1 and isinstance(st.targets[0], ast.Name):
+                    v = st.targets[0].id
+                    if v in names and v not in nested and stores.get(v) == 1 and loads.get(v) == 1 and _pure(st.value) \
+                            and isinstance(nx, (ast.Assign, ast.AugAssign, ast.Return, ast.Expr, ast.If, ast.AnnAssign)):
+                        head = nx.test if isinstance(nx, ast.If) else nx
+                        uses = [x for x in ast.walk(head) if isinstance(x, ast.Name) and x.id == v and isinstance(x.ctx, ast.Load)]
+                        # evaluation order: E must not read anything the rest of the using statement writes (it cannot:
+                        # stores happen after the value is evaluated), and E is pure, so moving it is safe
+                        if len(uses) == 1:
+                            if isinstance(nx, ast.If):
+                                nx.test = _Subst(v, st.value).visit(nx.test)
+                            else:
+                                _Subst(v, st.value).visit(nx)
+                            del body[i]
+                            continue
+                i += 1
+    return tree
+
+
 _SIGS = None
 
 
@@ -215,6 +321,10 @@ def transform(path: Path, kind: str):
                 root = root.parent
             _SIGS = unique_signatures(root.parent)
         tree = _KwArgs(_SIGS, [x.name for x in tree.body if isinstance(x, ast.FunctionDef)]).visit(tree)
+    elif kind == 'extract-locals':
+        tree = extract_locals(tree)
+    elif kind == 'inline-locals':
+        tree = inline_locals(tree)
     elif kind == 'noise':
         tree = _Noise().visit(tree)
     elif kind == 'invert-if':
